@@ -224,7 +224,11 @@ def fatal_exit(c, output, inflight, wal, member):
     if not fatal or not os.path.exists(inflight):
         return False
     cases = []
-    for k in json.load(open(inflight)):
+    try:
+        keys = json.load(open(inflight))
+    except ValueError:
+        return False
+    for k in keys:
         part, _, n = k.partition(":")
         n = int(n)
         if part == "wal":
